@@ -73,6 +73,8 @@ SEQS_QUICK = [
 def structures(tier):
     sts = []
     tms = [[], [[0x77, 7, 'procA']], [[0x77, 7, 'procA'], [0x78, 8, '']]]
+    RAW = 'launchd\x00\x00\x00\x00\x00ion_\x00\x00\x00\x00'           # a 20-byte command field with bytes after the first NUL
+    sts.append({'m': 1, 'split': [1], 'threads': [[0x77, 7, RAW], [0x78, 8, 'procB']], 'filler': 0, 'blocks': ['strings', 'logs']})
     if tier == 'quick':
         for sp in splits(2):
             sts.append({'m': 2, 'split': sp, 'threads': tms[1], 'filler': 0, 'blocks': ['strings', 'logs']})
@@ -221,7 +223,7 @@ def run(ctx, st):
         ctx.check(L + '/images', parser.images == images)
         ctx.check(L + '/log-count', len(lgs) == len(logs), '%d logs for %d records' % (len(lgs), len(logs)))
         exp_tp = {t: p for t, p, _ in threads}
-        exp_pn = {p: n.decode() for _, p, n in threads}
+        exp_pn = {p: n.split(b'\x00')[0].decode() for _, p, n in threads}
         for lg, raw in zip(lgs, logs):
             ctx.check(L + '/log', lg.composed_message == strings[raw['cm']] and lg.thread_identifier == raw['tid'] and
                       lg.process == (strings[raw['p']] if 'p' in raw else '') and
